@@ -1,0 +1,41 @@
+//go:build verif
+
+package rest
+
+// Contracts for property C12 (session creation from a request body). Comment-only; read by /verif/engine.
+// The predicates (hashCacheOK, credOK, userOf) are defined in /repo/auth/zz_verif_c12.go.
+
+//@ props C12
+
+// TRUSTED frame: ctx() lazily builds the request log context; the only field it assigns is h.rqCtx
+// (its callees only read the server configuration and allocate the new context).
+//@ func handler.ctx
+//@   trusted
+//@   modifies h.rqCtx
+
+// TRUSTED: parses the request body into the target (an anonymous struct here, which the frame language cannot name,
+// hence `modifies *`); it does not touch the process-wide password cache.
+//@ func handler.readJSONInto
+//@   trusted
+//@   modifies *
+//@   ensures old(hashCacheOK()) ==> hashCacheOK()
+
+// POST /_session with a body: a user is returned only if the stored user of that name passed the full password check
+// (not disabled, no legacy hash, password accepted).
+//@ func handler.getUserFromSessionRequestBody
+//@   requires h != nil && h.db != nil
+//@   requires[cache] hashCacheOK()
+//@   modifies *
+//@   ensures[cache]         hashCacheOK()
+//@   ensures[no-error]      result0 != nil ==> isNilErr(result1)
+//@   ensures[enabled]       result0 != nil ==> dynType(result0) == typeTag(*auth.userImpl) && userOf(result0) != nil && !userOf(result0).Disabled_
+//@   ensures[no-legacy-hash] result0 != nil ==> isNilErr(userOf(result0).OldPasswordHash_)
+//@   ensures[password]      result0 != nil ==> (exists presented string :: {len(presented)} credOK(userOf(result0), presented))
+
+// Sessions are only ever created for a non-nil, enabled user (CreateSession refuses disabled users).
+//@ func handler.makeSessionWithTTL
+//@   requires h != nil && h.db != nil && h.db.DatabaseContext != nil && h.db.MetadataKeys != nil
+//@   requires[impl] user != nil ==> dynType(user) == typeTag(*auth.userImpl) && userOf(user) != nil
+//@   modifies *
+//@   ensures[needs-user]   isNilErr(err) ==> user != nil
+//@   ensures[enabled-user] isNilErr(err) ==> !old(userOf(user).Disabled_)
